@@ -38,11 +38,19 @@ pub struct SchedJson {
   pub walk: Option<(u64, u8)>,
   pub hash_seed: u64,
   pub notify_lifo: bool,
+  #[serde(default)]
+  pub spurious: bool,
 }
 
 impl From<&Schedule> for SchedJson {
   fn from(s: &Schedule) -> Self {
-    SchedJson { overrides: s.overrides.clone(), walk: s.walk, hash_seed: s.hash_seed, notify_lifo: s.notify_lifo }
+    SchedJson {
+      overrides: s.overrides.clone(),
+      walk: s.walk,
+      hash_seed: s.hash_seed,
+      notify_lifo: s.notify_lifo,
+      spurious: s.spurious,
+    }
   }
 }
 
@@ -53,6 +61,7 @@ impl SchedJson {
       walk: self.walk,
       hash_seed: self.hash_seed,
       notify_lifo: self.notify_lifo,
+      spurious: self.spurious,
     }
   }
 }
